@@ -18,3 +18,6 @@ CONSTANTS
   SAMPLE = 211
   STREAMLEN = 4
   TWOCOLOURS = FALSE
+  RING = 1
+  FILTERED = TRUE
+  STOREORIENT = TRUE
